@@ -252,6 +252,10 @@ func (f *C15Fake) Rev() int64 {
 func (f *C15Fake) Apply(del bool, key, val string, lost bool) {
 	f.mu.Lock()
 	defer f.mu.Unlock()
+	f.applyLocked(del, key, val, lost)
+}
+
+func (f *C15Fake) applyLocked(del bool, key, val string, lost bool) {
 	f.rev++
 	e := C15Event{Rev: f.rev, Del: del, Key: key, Val: val, Lost: lost}
 	if del {
@@ -272,10 +276,20 @@ func (f *C15Fake) Apply(del bool, key, val string, lost bool) {
 	}
 }
 
+// C15Gap is a store mutation that lands after the streams ended and before the
+// code under test has re-created its watches.
+type C15Gap struct {
+	Del      bool
+	Key, Val string
+}
+
 // Break ends every open stream: "close" closes the channel, "cancel" sends a
 // Canceled response, "error" sends a response whose Err() is non-nil
-// (compacted). The code under test is expected to open a new watch.
-func (f *C15Fake) Break(mode string) {
+// (compacted). The code under test is expected to open a new watch. The gap
+// events are applied under the same lock, i.e. strictly before any watcher can
+// call Watch again: no stream exists that could carry them, they are only
+// reachable through the start revision of the re-created watch (or a Get).
+func (f *C15Fake) Break(mode string, gap []C15Gap) {
 	f.mu.Lock()
 	defer f.mu.Unlock()
 	for _, s := range f.streams {
@@ -293,6 +307,9 @@ func (f *C15Fake) Break(mode string) {
 		}
 	}
 	f.streams = nil
+	for _, g := range gap {
+		f.applyLocked(g.Del, g.Key, g.Val, false)
+	}
 }
 
 // Release drops everything the fake holds (called at the end of a case).
